@@ -66,9 +66,10 @@ def registeredLayout (reg : List (Nat × String)) (code : Nat) : Option Layout :
   | some c => (cls c).map (·.packL)
   | none => none
 
-/-- all 22 message types of `enum ofp_type`, nothing else, each decoded by a class with that message's structure
-    (`none`: packet-out, hand model) -/
+/-- all 22 message types of `enum ofp_type`, nothing else, each registered to the class named after it and decoded with
+    that message's structure (`none`: packet-out, hand model) -/
 theorem registry_messages :
+    messages = Spec.OF10.messageClass ∧
     messages.map (·.1) = Spec.OF10.messageTypes.map (·.1) ∧
     ∀ p ∈ Spec.OF10.messageTypes,
       (messages.lookup p.1).isSome = true ∧ registeredLayout messages p.1 = p.2 := by decide
@@ -98,7 +99,7 @@ theorem registry_total :
     (messages.map (·.1) = Spec.OF10.messageTypes.map (·.1)) ∧ (actions.map (·.1) = Spec.OF10.actionTypes.map (·.1)) ∧
     (statsRequests.map (·.1) = Spec.OF10.statsTypes.map (·.1)) ∧ (statsReplies.map (·.1) = Spec.OF10.statsTypes.map (·.1)) ∧
     (queueProps.map (·.1) = Spec.OF10.queuePropTypes.map (·.1)) :=
-  ⟨registry_messages.1, registry_actions.1, registry_stats.1, registry_stats.2.1, registry_queue_props.1⟩
+  ⟨registry_messages.2.1, registry_actions.1, registry_stats.1, registry_stats.2.1, registry_queue_props.1⟩
 
 /-! ## 3. Lossless round trip — every class, every field value, every list length, any nesting depth -/
 
@@ -201,6 +202,38 @@ theorem outAction_ok : okAt env 1 "actions" outAction := by
 example : ∃ bs, encList ((codecAt env 1).enc "actions") [outAction, outAction] = some bs ∧
     decList ((codecAt env 1).dec "actions") bs.length bs = some [outAction, outAction] :=
   actions_stream "actions" 1 _ (by intro e he; simp at he; subst he; exact outAction_ok)
+
+/-! ## 4b. `ofp_packet_out` (hand model `CodecOF.encPacketOut`): two length fields -/
+
+/-- **`packet_out_roundtrip`**: for every packet-out with in-range header fields, any list of well-formed actions and
+    any data such that the whole message fits the 16-bit length field: `pack` succeeds, `unpack` of the bytes followed
+    by anything returns exactly the message (actions split from data at `actions_len`) and leaves exactly the rest, and
+    the header length field is the byte count. -/
+theorem packet_out_roundtrip (n : Nat) (p : PacketOut (Elem n)) (tl : Bytes)
+    (hv : p.version < 256) (ht : p.header_type < 256) (hx : p.xid < 2 ^ 32) (hb : p.buffer_id < 2 ^ 32)
+    (hi : p.in_port < 65536) (hacts : ∀ e ∈ p.actions, okAt env n "actions" e)
+    (hlen : ∀ acts, encList ((codecAt env n).enc "actions") p.actions = some acts → 16 + acts.length + p.data.length < 65536) :
+    ∃ bs, encPacketOut (codecAt env n) p = some bs ∧ decPacketOut (codecAt env n) (bs ++ tl) = some (p, tl) ∧
+      hdrLen packetOutL (bs ++ tl) = some bs.length := by
+  obtain ⟨acts, hea, hda⟩ := decList_encList ((codecAt env n).enc "actions") ((codecAt env n).dec "actions") p.actions
+    (fun e he => codecAt_good env n "actions" e (hacts e he))
+  have hL := hlen acts hea
+  have hal : acts.length < 65536 := by omega
+  have hf : Fits (codecAt env n) (okAt env n) packetOutL
+      ⟨[.num p.version, .num p.header_type, .num p.xid, .num p.buffer_id, .num p.in_port, .num acts.length],
+       .rest (acts ++ p.data)⟩ := by
+    refine ⟨?_, trivial, ?_⟩
+    · simp [packetOutL, Spec.OF10.ofp_packet_out_fixed, Spec.OF10.ofp_header, fitsFixed, hv, ht, hx, hb, hi, hal]
+    · intro t htl
+      simp only [packetOutL, encTail, Option.some.injEq] at htl
+      subst htl
+      simp only [packetOutL, Spec.OF10.ofp_packet_out_fixed, Spec.OF10.ofp_header, List.cons_append, List.nil_append,
+        fixedSize, lenFits, List.length_append, Bool.and_true, decide_eq_true_eq]
+      omega
+  obtain ⟨bs, t, he, _, hd, _, hh⟩ := roundtrip_nested env n packetOutL _ none tl hf (.inl (by decide))
+  refine ⟨bs, by simp [encPacketOut, hea, he], ?_, hh (by decide)⟩
+  have h1 : ¬ ((acts ++ p.data).length < acts.length) := by simp
+  simp only [decPacketOut, hd, h1, ↓reduceIte, List.take_left' rfl, List.drop_left' rfl, hda acts.length (Nat.le_refl _)]
 
 /-! ## 5. `ofp_match` (hand model `Model/CodecMatch.lean`): wildcard normalisation -/
 
